@@ -655,6 +655,13 @@ func (ex *Exec) execFrom(st *State, b *ssa.BasicBlock, idx int, pred *ssa.BasicB
 					name = funcShort(f)
 				}
 				st.notes = append(st.notes, "go:"+name)
+				if f := y.Common().StaticCallee(); f != nil && !ex.collect {
+					// the spawned function starts in (at least) the current state: its precondition is an obligation here
+					if fc := ex.eng.contractFor(f); fc != nil {
+						ctx := &callCtx{ex: ex, st: st, cc: y.Common(), site: y, sig: f.Signature, key: funcKey(f), args: as}
+						ex.callPre(ctx, fc, f, "go")
+					}
+				}
 				ex.note("A-go: a go statement is a no-op for the spawning function; the spawned function is verified separately")
 				continue
 			case *ssa.Call:
